@@ -5,8 +5,10 @@ import (
 	"flag"
 	"fmt"
 	"os"
+	"runtime"
 	"sort"
 	"strings"
+	"time"
 
 	"gocv/internal/vc"
 )
@@ -53,7 +55,9 @@ func main() {
 			if *only != "" && !strings.Contains(fn.String(), *only) {
 				continue
 			}
+			tg := time.Now()
 			obls, _, err := e.VerifyFunc(fn)
+			fmt.Fprintf(os.Stderr, "generate %s: %.1fs\n", fn.Name(), time.Since(tg).Seconds())
 			if err != nil {
 				fmt.Println("ENGINE-ERROR", err)
 				continue
@@ -62,7 +66,9 @@ func main() {
 		}
 	}
 	all = append(all, e.LemmaObligations()...)
-	e.Discharge(all, 6)
+	t0 := time.Now()
+	e.Discharge(all, runtime.NumCPU()*3/4)
+	fmt.Fprintf(os.Stderr, "discharge: %.1fs\n", time.Since(t0).Seconds())
 	bad := 0
 	byClass := map[string][2]int{}
 	for _, o := range all {
@@ -89,5 +95,12 @@ func main() {
 	for _, c := range cs {
 		fmt.Printf("%-14s %d/%d\n", c, byClass[c][1], byClass[c][0])
 	}
+	nb := 0
+	for _, o := range all {
+		if o.Batched > 0 {
+			nb++
+		}
+	}
+	fmt.Fprintf(os.Stderr, "batched frame obligations: %d\n", nb)
 	fmt.Printf("obligations=%d failed=%d\n", len(all), bad)
 }
